@@ -49,8 +49,8 @@ Theorem C16_trace_accepted : forall ops,
 Proof. exact run_accepted. Qed.
 Print Assumptions C16_trace_accepted.
 
-(* Start and stop may be called from any goroutines in any order without panicking: no step of any
-   history under any schedule observes a panic (close of a closed or nil channel, nil feature). *)
+(* Start and stop may be called from any goroutines in any order without panicking or getting stuck: no step of any
+   history under any schedule observes a panic (close of a closed or nil channel, nil feature) or a Stuck call or stream. *)
 Theorem C16_no_panic : forall ops,
   forallb (fun x => negb (has_panic (snd x))) (snd (run init ops)) = true.
 Proof. exact run_no_panic. Qed.
